@@ -217,3 +217,87 @@ mutant('C14-R3-max-frame-size-not-applied', ['C14'], ['C14.R2|apply|sites', 'C14
                 dst.set_max_send_frame_size(val as usize);
             }
 ''', '')])
+
+# ---------------------------------------------------------------- C06
+mutant('C06-R2-poll-capacity-no-registration', ['C06'], ['C06.R2|pending|proto::streams::send::Send::poll_capacity'],
+       'Send::poll_capacity returns Pending without registering the task',
+       [(S + 'send.rs', '''        if !stream.send_capacity_inc {
+            stream.wait_send(cx);
+            return Poll::Pending;''', '''        if !stream.send_capacity_inc {
+            let _ = cx;
+            return Poll::Pending;''')])
+mutant('C06-R2-poll-trailers-no-registration', ['C06'], ['C06.R2|pending|proto::streams::recv::Recv::poll_trailers', 'C06.R3|putback|poll_trailers'],
+       'Recv::poll_trailers puts a DATA event back and returns Pending without storing recv_task (0.4.16 missed wake-up)',
+       [(S + 'recv.rs', '''                stream.pending_recv.push_front(&mut self.buffer, event);
+                stream.recv_task = Some(cx.waker().clone());
+                Poll::Pending''', '''                stream.pending_recv.push_front(&mut self.buffer, event);
+                Poll::Pending''')])
+mutant('C06-R3-recv-reset-no-notify-push', ['C06'], ['C06.R3|closer|proto::streams::recv::Recv::recv_reset'],
+       'Recv::recv_reset no longer notifies the push task (0.4.7 class of omission)',
+       [(S + 'recv.rs', '''        stream.state.recv_reset(frame, stream.is_pending_send);
+
+        stream.notify_send();
+        stream.notify_recv();
+        stream.notify_push();''', '''        stream.state.recv_reset(frame, stream.is_pending_send);
+
+        stream.notify_send();
+        stream.notify_recv();''')])
+mutant('C06-R3-data-delivered-without-notify', ['C06'], ['C06.R3|deliver|proto::streams::recv::Recv::recv_data'],
+       'Recv::recv_data pushes the DATA event without notify_recv',
+       [(S + 'recv.rs', '''        stream.pending_recv.push_back(&mut self.buffer, event);
+        stream.notify_recv();
+
+        Ok(())
+    }
+
+    pub fn ignore_data''', '''        stream.pending_recv.push_back(&mut self.buffer, event);
+
+        Ok(())
+    }
+
+    pub fn ignore_data''')])
+mutant('C06-R5-poll-pong-check-before-register', ['C06'], ['C06.R5|poll_pong|register-before-cas'],
+       'UserPings::poll_pong checks the state before registering the waker (pong can be lost)',
+       [('src/proto/ping_pong.rs', '''        self.0.pong_task.register(cx.waker());
+        let prev = self
+            .0
+            .state
+            .compare_exchange(
+                USER_STATE_RECEIVED_PONG, // current
+                USER_STATE_EMPTY,         // new
+                Ordering::AcqRel,
+                Ordering::Acquire,
+            )
+            .unwrap_or_else(|v| v);
+''', '''        let prev = self
+            .0
+            .state
+            .compare_exchange(
+                USER_STATE_RECEIVED_PONG, // current
+                USER_STATE_EMPTY,         // new
+                Ordering::AcqRel,
+                Ordering::Acquire,
+            )
+            .unwrap_or_else(|v| v);
+        self.0.pong_task.register(cx.waker());
+''')])
+mutant('C06-R1b-schedule-send-no-wake', ['C06'], ['C06.R1b|wake-after|proto::streams::prioritize::Prioritize::schedule_send'],
+       'Prioritize::schedule_send queues the stream but does not wake the connection',
+       [(S + 'prioritize.rs', '''            self.pending_send.push(stream);
+
+            // Notify the connection.
+            if let Some(task) = task.take() {
+                task.wake();
+            }''', '''            self.pending_send.push(stream);
+            let _ = task;''')])
+mutant('C06-R4-park-after-unlock', ['C06', 'C20'], ['C06.R4|park'],
+       'Streams::poll_complete stores the connection waker after re-taking the lock without re-checking the work list',
+       [(S + 'streams.rs', '''                if status == BufferStatus::Complete {
+                    me.actions.task = Some(cx.waker().clone());
+                }
+
+                status''', '''                status'''),
+        (S + 'streams.rs', '''                let mut me = self.inner.lock().unwrap();
+                me.reclaim_written_frame(&self.send_buffer, dst)''', '''                let mut me = self.inner.lock().unwrap();
+                me.actions.task = Some(cx.waker().clone());
+                me.reclaim_written_frame(&self.send_buffer, dst)''')])
